@@ -31,7 +31,8 @@ RULE = ('(a) terrains built to drive the status tree through its hard cases — 
         'query, and snapshots of the complete node arrays (every row ever handed out plus the dummy root and the NIL row: '
         'key, payload, cached maximum, colour, left/right/parent) after every update of short sequences and at ~48 evenly '
         'spaced points of long ones; at the same points the real arrays are checked for a cached maximum above its subtree '
-        'maximum (oracle).')
+        'maximum (oracle). The minimised input of the recorded defect of _delete_from_tree (45 updates, STALE_MAX_SEQ) is replayed '
+        'on every run and reported as KNOWN-FINDING as long as the concrete model reproduces the real trace exactly.')
 TRUSTED = [
     'the red-black tree of viewshed.py:93-732 is modelled line by line in coq/C05/Tree.v (finite map row id -> node record; '
     'NIL_ID = -1 is an ordinary row whose colour / cached maximum are read and whose parent field is written, as in the '
@@ -54,12 +55,17 @@ TRUSTED = [
     'REFUTED (Example C05_tree_delete_max_not_preserved, and observed on the real arrays): _delete_from_tree does NOT '
     're-establish "cached maximum = subtree maximum" — the skip conditions of the loop at viewshed.py:665-697 leave '
     'ancestors\' maxima too LOW; harmless for the result because phase 2 of the query walks every nearer node (only the '
-    'shortcut is lost); the harmful direction (cached maximum ABOVE every subtree value) was never observed (checked on '
-    'the real arrays on every run, in the bounded theorem through the queries) but its impossibility is NOT proved. So '
+    'shortcut is lost). GENUINE DEFECT (known finding rbtree-delete-stale-cached-max, Example C05_tree_refines_refuted, '
+    'reproduced on the jitted code): the harmful direction also occurs — after some delete sequences an ancestor keeps a '
+    'cached maximum ABOVE every value of its subtree (the repair loops of _delete_from_tree break / skip on equality tests '
+    'that assume exact ancestors) and the phase-1 shortcut then hides a visible cell; found by random search on the '
+    'extracted model (about 1 state in 10^7), never through viewshed() on a terrain so far. So '
     'the composite statement "the concrete tree refines the abstract status structure for every operation sequence" '
-    '(Props tree_refines_status_full_statement / rbtree_refines_status_statement) stays unclaimed: the single missing '
-    'link is "_delete_from_tree preserves the one-sided maximum invariant WGood" (premise of C05_tree_query_refines_weak); '
-    'covered by the bounded theorem '
+    '(Props tree_refines_status_full_statement / rbtree_refines_status_statement) is unclaimed and, for the code as '
+    'written, FALSE: "_delete_from_tree preserves the one-sided maximum invariant WGood" (premise of '
+    'C05_tree_query_refines_weak) fails; it holds for the patched code (fixes/C05-rbtree-delete-recompute-max.diff: zero '
+    'stale maxima in 6000 random sequences), for which the proof would go through the two-sided invariant. On the '
+    'unchanged code the refinement is covered only by the bounded theorem '
     'C05_bounded_tree_refines_small and by correspondence (real tree vs concrete model row by row; real tree vs abstract '
     'structure)',
     'premises of the tree theorems: > on gradients is a strict weak order on the whole gradient type (asymmetric, '
@@ -101,7 +107,9 @@ PARTIAL = [
     'with deletes: C05_tree_delete_refines covers links / order / abstraction only, because the two-sided cached-maximum '
     'invariant is false after _delete_from_tree (Example C05_tree_delete_max_not_preserved); what the query really needs is '
     'the one-sided invariant WGood (no cached maximum above its subtree maximum: proved sufficient for the query, proved '
-    'preserved by rotations, fix-up and insert), whose preservation by _delete_from_tree is NOT proved. '
+    'preserved by rotations, fix-up and insert), and _delete_from_tree does NOT preserve it either: Example '
+    'C05_tree_refines_refuted (45 updates, then a visible key is reported hidden) = known finding '
+    'rbtree-delete-stale-cached-max, with a proposed patch. C05_tree_query_total proves fuel sufficiency for the query only. '
     'Bounded: C05_bounded_tree_refines_small (vm_compute, integer instance: every sequence of <= 6 inserts/deletes, keys '
     '1..5, gradients {0,1}; in-order sequence = sorted abstract status and 14 queries after every prefix)',
     'C05_sweep_eq_spec is conditional on the sweep not leaving the modelled domain (result inr _: no duplicate active key, '
@@ -129,15 +137,18 @@ LEVEL_TEXT = ('Proved for all inputs (any grid size, any terrain/observer/height
               'insert / rotation / query theorems are also proved for the one-sided invariant "no cached maximum too high" '
               '(C05_tree_weak_invariant_rotations, C05_tree_insert_refines_weak, C05_tree_query_refines_weak). Bounded '
               '(vm_compute; every sequence of <= 6 inserts/deletes over keys 1..5, gradients {0,1}, 14 queries after every '
-              'prefix): concrete tree = abstract status structure (C05_bounded_tree_refines_small). Not proved for all inputs: '
-              'that _delete_from_tree keeps the one-sided invariant, hence the composite refinement over operation sequences '
-              '(unclaimed), fuel sufficiency, float rounding facts. Correspondence: viewshed() vs extracted model, visible '
+              'prefix): concrete tree = abstract status structure (C05_bounded_tree_refines_small). The query never runs '
+              'out of fuel (C05_tree_query_total). The composite refinement over operation sequences is NOT a theorem of the '
+              'code as written: _delete_from_tree can leave a cached maximum too high, and a visible key is then reported '
+              'hidden (Example C05_tree_refines_refuted = known finding rbtree-delete-stale-cached-max, reproduced on the '
+              'jitted functions, patch proposed; not reproduced through viewshed() on a terrain). Not proved: fuel sufficiency '
+              'of insert / delete, float rounding facts. Correspondence: viewshed() vs extracted model, visible '
               'mask and angles bit-exact; the jitted tree functions vs the concrete tree model (node arrays row by row, query '
               'floats) and vs the abstract structure; oracles: independent Python reference, cached-maximum check on the '
               'real arrays.')
 LEVEL_NOTE = ('Trusted: Coq kernel, extraction (ExtrOcamlBasic + ExtrOCamlFloats), the OCaml driver handing Stdlib.atan to '
-              'the model, the composition of the per-operation tree theorems over sequences with deletes (one-sided '
-              'maximum invariant after delete: bounded + stress-tested, not proved), the line-by-line reading of the jitted tree code as Tree.v '
+              'the model, the behaviour of the status tree over sequences with deletes (per-operation theorems, bounded run and '
+              'stress tests; its cached-maximum repair is defective, see the known finding), the line-by-line reading of the jitted tree code as Tree.v '
               '(compared row by row on every run), float order laws as premises, the Python harness and oracle.')
 
 PI = math.pi
@@ -559,12 +570,12 @@ def run_tree_real(ops):
         except ValueError:
             res.append(-1)
             detail.append(('ERR',))
+        if stale is None and o[0] in ('I', 'D') and res[-1] != -1:
+            sh = t.stale_high()
+            if sh is not None:
+                stale = (j,) + sh
         if j in snaps:
             detail.append(('S', t.snapshot()))
-            if stale is None and o[0] in ('I', 'D'):
-                sh = t.stale_high()
-                if sh is not None:
-                    stale = (j,) + sh
     return res, detail, stale
 
 
@@ -808,29 +819,60 @@ def forked_run(cases):
     return results, crash
 
 
+KNOWN_STALE_MAX = 'rbtree-delete-stale-cached-max'
+
+
 def check_tree_case(ctx, case, real):
+    """oracle for one operation sequence -> None, or the failure (what, replay dict) to be reported by
+    compare_tree_model (which decides whether it is the known defect of the unchanged code)"""
     ops = [tuple(o) for o in case['ops']]
     if isinstance(real, str):
         ctx.violation('correspondence', 'cannot drive the status tree of viewshed.py directly: %s' % real, dict(case, ops=[]))
-        return False
+        return None
     exp = run_tree_oracle(ops)
-    if real[2] is not None:
-        j, row, key, cached, true = real[2]
-        ctx.violation('oracle', 'status tree: after op #%d %r (%s) row %d (key %r) caches the maximum %r but no node of '
-                      'its subtree has a min-gradient above %r: the phase-1 shortcut of the query can hide a visible cell'
-                      % (j, ops[j], case['pattern'], row, key, cached, true), dict(case, op_index=j))
-        return False
     for j, (a, b) in enumerate(zip(real[0], exp)):
         if a != b:
-            ctx.violation('oracle', 'status tree: after %d operations (%s) the real tree answers %s for op %r, brute force '
-                          'over the live nodes says %s' % (j, case['pattern'], a, ops[j], b),
-                          dict(case, op_index=j, got=a, expected=b))
-            return False
-    return True
+            return ('status tree: after %d operations (%s) the real tree answers %s for op %r, brute force '
+                    'over the live nodes says %s' % (j, case['pattern'], a, ops[j], b),
+                    dict(case, op_index=j, got=a, expected=b))
+    if real[2] is not None:
+        j, row, key, cached, true = real[2]
+        return ('status tree: after op #%d %r (%s) row %d (key %r) caches the maximum %r but no node of its subtree has '
+                'a min-gradient above %r: the phase-1 shortcut of the query can hide a visible cell'
+                % (j, ops[j], case['pattern'], row, key, cached, true), dict(case, op_index=j))
+    return None
+
+
+def report_tree_failure(ctx, failure, same_as_concrete_model):
+    """A wrong answer / a cached maximum above its subtree maximum of the real tree.  When the concrete tree model
+    (= the unchanged code, line by line) produces exactly the same trace on this input, this is the recorded defect of
+    _delete_from_tree (stale cached maxima survive the repair loops); otherwise it is something new."""
+    what, replay = failure
+    ctx.violation('oracle', what, replay, key=KNOWN_STALE_MAX if same_as_concrete_model else None)
+
+
+# the minimised input of the recorded defect: after these 45 updates the tree hides key 16 at gradient 2.5 although no
+# nearer live node has a gradient above 2 (a cached maximum 3 survives the deletion of the node it came from)
+STALE_MAX_SEQ = ('I2:2 I8:4 I12:4 I13:2 I9:3 D12 I5:1 I10:2 D2 I12:1 D8 I6:3 I8:2 D9 I9:1 D10 D13 D6 I16:3 D9 I9:2 D12 I13:2 '
+                 'D8 I7:4 I6:3 I10:1 I8:1 D6 D10 D5 I11:3 I15:0 I12:2 D9 I3:3 D7 I5:4 D3 I14:1 D13 I13:3 D11 D13 D5')
+
+
+def stale_max_case():
+    ops = []
+    for tok in STALE_MAX_SEQ.split():
+        if tok[0] == 'I':
+            k, g = tok[1:].split(':')
+            ops.append(['I', float(k)] + [float(g)] * 3 + [-1.0, 0.0, 1.0])
+        else:
+            ops.append(['D', float(tok[1:])])
+    ops.append(['Q', 16.0, 0.0, 2.5])
+    ops.append(['Q', 16.0, 0.0, 3.5])
+    return dict(fn='treeops', pattern='known-stale-max', grads='const', n=16, ops=ops)
 
 
 def gen_tree_cases(ctx):
     rng = ctx.rng
+    yield stale_max_case()
     nseq = 120 if ctx.quick() else 3000
     for s in range(nseq):
         pattern = TREE_PATTERNS[s % len(TREE_PATTERNS)]
@@ -841,20 +883,34 @@ def gen_tree_cases(ctx):
 
 
 def compare_tree_model(ctx, pending):
-    if ctx.model is None or not pending:
+    if not pending:
         return
-    outs = ctx.model.run([tree_line([tuple(o) for o in c['ops']]) for c, _ in pending])
-    couts = ctx.model.run([ctree_line([tuple(o) for o in c['ops']]) for c, _ in pending])
-    for (case, (real, detail, _stale)), mo, co in zip(pending, outs, couts):
+    if ctx.model is None:
+        for _case, _impl, failure in pending:
+            if failure is not None:
+                report_tree_failure(ctx, failure, False)
+        return
+    outs = ctx.model.run([tree_line([tuple(o) for o in c['ops']]) for c, _, _ in pending])
+    couts = ctx.model.run([ctree_line([tuple(o) for o in c['ops']]) for c, _, _ in pending])
+    for (case, (real, detail, _stale), failure), mo, co in zip(pending, outs, couts):
         ctx.traces += 1
         # (i) the real tree vs the CONCRETE tree model of coq/C05/Tree.v: roots, freed rows, the floats returned by
         # the query and the complete node arrays (keys, payloads, cached maxima, colours, links, NIL row)
         ops_t = [tuple(o) for o in case['ops']]
+        same = False
         if co.startswith('ERR'):
             ctx.violation('correspondence', 'concrete tree model returned %s' % co[:80], dict(case))
+            if failure is not None:
+                report_tree_failure(ctx, failure, False)
         else:
             cm = parse_ctree(co)
             j, why = describe_ctree_diff(detail, cm, ops_t)
+            same = why is None
+            if failure is not None:
+                ctx.count('treeops/known-stale-max' if same else 'treeops/oracle-failure')
+                report_tree_failure(ctx, failure, same)
+                if same:
+                    continue            # the abstract structure cannot agree with a wrong answer of the unchanged code
             if why is not None:
                 ctx.count('treeops/concrete-model-differs')
                 ctx.violation('correspondence', 'status tree vs concrete red-black tree model (Tree.v): %s' % why,
@@ -1004,8 +1060,9 @@ def process(ctx, cases):
         if case.get('fn') == 'treeops':
             ctx.case(case, nontrivial=True)
             ctx.count('treeops/%s' % case['pattern'])
-            if check_tree_case(ctx, case, impl):
-                tpending.append((case, impl))
+            failure = check_tree_case(ctx, case, impl)
+            if not isinstance(impl, str):
+                tpending.append((case, impl, failure))
             continue
         hidden = (not isinstance(impl, str)) and any(v == -1 for row in impl for v in row)
         ctx.case(case, nontrivial=hidden)
@@ -1045,7 +1102,9 @@ def search(ctx):
             if len(cases) >= 6000:
                 break
         cases += list(gen_tree_cases(ctx))[:600]
-        process(ctx, cases)
+        _v, tpending, _c = process(ctx, cases)
+        ctx.model = model               # needed to tell the recorded defect of the unchanged code from a new one
+        compare_tree_model(ctx, tpending)
     finally:
         ctx.tier = old
         ctx.model = model
@@ -1057,4 +1116,5 @@ def replay_case(ctx, case):
         case.pop(k, None)
     if case.get('fn') != 'treeops':
         case['grid'] = [[float(v) for v in row] for row in case['grid']]
-    process(ctx, [case])
+    _v, tpending, _c = process(ctx, [case])
+    compare_tree_model(ctx, tpending)
